@@ -279,7 +279,7 @@ def generate(repo: Path):
     return "".join(outR), "".join(outF), names
 
 
-def main(repo="/repo", outdir="/verif/lean/LbfgsbVerif/Generated"):
+def main(repo="/repo", outdir=str(Path(__file__).resolve().parent.parent / "lean" / "LbfgsbVerif" / "Generated")):
     r, f, names = generate(Path(repo))
     for fn, txt in (("Bench.lean", r), ("BenchF.lean", f)):
         p = Path(outdir) / fn
